@@ -44,6 +44,7 @@ JOBS["C18"] = [
 
 JOBS["C01"] = [
     H("machine", "beaconnet", "^TestMachine$", {"shards": 12, "checks": 25, "timeout": 900, "env": {"VERIF_PROP": "C01"}}, {"shards": 14, "checks": 400, "timeout": 3400, "env": {"VERIF_PROP": "C01"}}),
+    I("publicrand", "internal/core", "^TestVerifC01PublicRand$", {"shards": 4, "checks": 3, "timeout": 1200}, {"shards": 8, "checks": 40, "timeout": 3400}),
 ]
 JOBS["C02"] = [
     H("machine", "beaconnet", "^TestMachine$", {"shards": 12, "checks": 25, "timeout": 900, "env": {"VERIF_PROP": "C02"}}, {"shards": 14, "checks": 400, "timeout": 3400, "env": {"VERIF_PROP": "C02"}}),
@@ -109,6 +110,7 @@ JOBS["C14"] = [
 JOBS["C15"] = [
     H("dkgtraffic", "dkgnet", "^TestC15DKGTraffic$", {"shards": 6, "checks": 3, "timeout": 1500}, {"shards": 14, "checks": 60, "timeout": 3400}),
     I("daemon", "internal/core", "^TestVerifC15Daemon$", {"shards": 4, "checks": 4, "timeout": 1200}, {"shards": 14, "checks": 60, "timeout": 3400}),
+    I("faultlogs", "internal/core", "^TestVerifC15FaultLogs$", {"shards": 6, "checks": 1, "timeout": 1500}, {"shards": 14, "checks": 8, "timeout": 3400}),
 ]
 
 JOBS["C13"] = [
@@ -127,7 +129,7 @@ RULES = {
            "(b) dkg.db decodes and its finished record is one whole epoch (Complete, group and share of one key) and a current record that says Complete is that same epoch, (c) group file and share file decode and are exactly the group and share of the epoch dkg.db records as completed (none if it records none), "
            "(d) the chain store scans gap-free from 0, every beacon verifies under the group key, and holds every round the node had served before the snapshot, (e) after three periods of clock time no fatal event. "
            "All images of a case are examined (fault enumeration over the persistence points of the script); non-trivial: every image; distinct by case + image index + crash window.",
-    "C15": "(dkg) real dkg.Process instances run a key generation (n in 2..4, 5 schemes) and optionally a resharing on the in-memory bus; every gossip and bundle message (marshalled protobuf), every DKG status answer and every log line at debug level is scanned. "
+    "C15": "(dkg) real dkg.Process instances run a key generation (n in 2..4, 5 schemes) and optionally a resharing on the in-memory bus; every gossip and bundle message (marshalled protobuf), every DKG status answer and every log line at debug level is scanned, and so are the error texts answered to remote callers: for the protocol's own messages, for two forged twins of every gossip packet (signature bit-flipped, sender swapped) sent by the harness just before the genuine one, and for refused operator commands. (faults) three real daemons run a DKG / resharing while on one of them the share-file or group-file path is occupied by a directory, so that storing the DKG output fails: all log lines, command errors and DKG status answers are scanned for the long-term scalars and every share recorded in a dkg.db. "
            "(daemon) a real two-chain daemon (bolt or memdb, process umask 0 or 022) produces beacons; the marshalled answers of PublicRand, ChainInfo, GetIdentity, PublicKey, GroupFile, Status, DKGStatus, ListBeaconIDs, the first SyncChain item, the database backup, "
            "the HTTP bodies of /{hash}/info|public/latest|public/1|health and /chains, and every log line are scanned; every file under the daemon's folder is scanned and those in which a secret is found must have no group/other permission bits. "
            "Secrets = each node's long-term scalar and each epoch's share value, searched raw, byte-reversed, lower/upper hex, base64 std/url with and without padding, the scalar's String() and the decimal byte list. Positive control: the scanner must find the secrets in dkg.db, "
